@@ -222,6 +222,9 @@ func algebraicMutations(p *perso.Perso, sess session, f field, orig []byte) []mu
 	switch {
 	case curve != nil && (f.Name == "TermMapPri" || f.Name == "TermKaPri" || f.Name == "TermPri"):
 		addN(curve.N, "scalar-plus-group-order")
+	case curve != nil && f.Mech == "CAM" && f.Name == "Nonce":
+		// the nonce enters the mapping only as the scalar of s*G
+		addN(curve.N, "nonce-plus-group-order")
 	case curve != nil && strings.HasSuffix(f.Name, "Pub") || curve != nil && f.Name == "TermPubKey":
 		if x, y, ok := curve.DecodePoint(orig); ok {
 			out = append(out, mutation{"negated-point", curve.EncodePoint(x, new(big.Int).Sub(curve.P, y))})
